@@ -81,6 +81,8 @@ def run_mask(sizes, subset):
     if not np.array_equal(got, expected):
         return {"what": "mask is not the gather of the variables' components", "sizes": list(sizes), "masking": masking, "got": got.tolist()}
     y = np.arange(100.0, 100.0 + len(expected))
+    if f.unmask_x_swap_order(masking, y) is y:
+        return {"what": "unmask_x_swap_order returns its argument itself (callers rely on a fresh array)", "sizes": list(sizes), "masking": masking}
     if not np.array_equal(f.mask_x_swap_order(masking, f.unmask_x_swap_order(masking, y)), y):
         return {"what": "mask(unmask(y)) != y", "sizes": list(sizes), "masking": masking}
     if not np.array_equal(f.unmask_x_swap_order(masking, got, x_full=x), x):
@@ -342,6 +344,8 @@ def _run(s):
 def replay(ob, seed=0):
     kind = "consistency" if "consistency_constraint" in ob.func else ("mdf" if "_remove_couplings_from_ds" in ob.func else "mask")
     kinds = (kind,)
+    if "_get_normalization_factor" in ob.func:
+        kinds = ("consistency",)
     if "_build_constraints" in ob.func:
         kinds = ("idf_build",)
     elif ob.func.endswith("IDF.__init__") or "IDF.get_top_level_disciplines" in ob.func:
